@@ -368,6 +368,7 @@ def normalize(model):
         if f is None:
             continue
         fold_pointer_null_tests(f)
+        drop_dead_initialisers(f)
         eliminate_out_pointers(f)
         for _ in range(4):
             if not thread_flags(f):
@@ -700,8 +701,6 @@ def lower_table_dispatch(model):
                 ok = False
         if ok and any(e is not None for e in ents):
             tables[node.get("id")] = (key, ents)
-    if not tables:
-        return 0, set()
     other_use = set()
     for f in model.funcs.values():
         rel = model.rel(f.file) or ""
@@ -717,6 +716,61 @@ def lower_table_dispatch(model):
                 if b["kind"] == "DeclRefExpr" and b.get("ref", {}).get("id") in tables:
                     return b["ref"]["id"], kids(e0)[1], e0
             return None
+        # a local function pointer chosen by a ternary of two functions: `f = c ? A : B; ... (*f)(args)` is
+        # `if (c) A(args) else B(args)` when c is a plain local that is not assigned in between (it is evaluated once)
+        cond_held = {}
+        for x in walk(f.body):
+            if x["kind"] == "VarDecl" and kids(x):
+                ini = strip(kids(x)[0], casts=True)
+                if ini["kind"] == "ConditionalOperator":
+                    a_, b_ = strip(kids(ini)[1], casts=True), strip(kids(ini)[2], casts=True)
+                    c_ = strip(kids(ini)[0], casts=True)
+                    if a_["kind"] == "DeclRefExpr" and b_["kind"] == "DeclRefExpr" and \
+                            a_.get("ref", {}).get("kind") == "FunctionDecl" and b_.get("ref", {}).get("kind") == "FunctionDecl" and \
+                            c_["kind"] == "DeclRefExpr" and c_.get("ref", {}).get("kind") in ("VarDecl", "ParmVarDecl"):
+                        cid = c_["ref"]["id"]
+                        writes = [y for y in walk(f.body) if y["kind"] in ("BinaryOperator", "CompoundAssignOperator") and
+                                  y.get("opcode", "").endswith("=") and y.get("opcode") not in ("==", "!=", "<=", ">=") and
+                                  strip(kids(y)[0], casts=True).get("ref", {}).get("id") in (cid, x.get("id"))]
+                        if not writes:
+                            cond_held[x.get("id")] = (kids(ini)[0], a_, b_)
+        if cond_held:
+            progress = True
+            while progress:
+                progress = False
+                for x in walk(f.body):
+                    if x["kind"] not in _STRUCTURAL:
+                        continue
+                    ch = x.get("inner") or []
+                    for i, c in enumerate(ch):
+                        if c["kind"] in _STRUCTURAL or c["kind"] in ("DeclStmt", "ReturnStmt", "Null"):
+                            continue
+                        if (x["kind"] in ("IfStmt", "WhileStmt", "SwitchStmt") and i == 0) or (x["kind"] == "ForStmt" and i < 4) or \
+                                (x["kind"] == "DoStmt" and i == 1):
+                            continue
+                        for y in walk(c):
+                            if y["kind"] != "CallExpr":
+                                continue
+                            cal = strip(kids(y)[0], casts=True)
+                            while cal["kind"] == "UnaryOperator" and cal.get("opcode") == "*":
+                                cal = strip(kids(cal)[0], casts=True)
+                            if cal["kind"] == "DeclRefExpr" and cal.get("ref", {}).get("id") in cond_held:
+                                cnd, fa, fb = cond_held[cal["ref"]["id"]]
+                                pos = [j for j, z in enumerate(walk(c)) if z is y][0]
+                                arms = []
+                                for fn_ in (fa, fb):
+                                    st_ = copy.deepcopy(c)
+                                    y2 = list(walk(st_))[pos]
+                                    y2["inner"] = [copy.deepcopy(fn_)] + list(kids(y2)[1:])
+                                    arms.append(_mk("CompoundStmt", [st_], file=c.get("file"), line=c.get("line")))
+                                ch[i] = _mk("IfStmt", [copy.deepcopy(cnd), arms[0], arms[1]], file=c.get("file"), line=c.get("line"), col=c.get("col"))
+                                n_low += 1
+                                progress = True
+                                break
+                        if progress:
+                            break
+                    if progress:
+                        break
         # locals that hold one table entry
         held = {}
         for x in walk(f.body):
@@ -1279,6 +1333,36 @@ def fold_pointer_null_tests(f):
                 if v is not None:
                     ch[i] = kids(c)[1] if v else kids(c)[2]
                     changed = True
+    return changed
+
+
+def drop_dead_initialisers(f):
+    """`T v = constant; ...; v = E;` where nothing in between mentions v and the assignment is an unconditional statement of
+    the same block: the initialiser is dead, v is defined by the assignment."""
+    changed = False
+    for blk in walk(f.body):
+        if blk["kind"] != "CompoundStmt":
+            continue
+        st = blk.get("inner") or []
+        for i, d in enumerate(st):
+            if d["kind"] != "DeclStmt":
+                continue
+            for vd in kids(d):
+                if vd["kind"] != "VarDecl" or not kids(vd) or _const_value(kids(vd)[0]) is None and \
+                        strip(kids(vd)[0], casts=True)["kind"] != "FloatingLiteral":
+                    continue
+                vid = vd.get("id")
+                for s_ in st[i + 1:]:
+                    refs = _refs_to(s_, vid)
+                    if not refs:
+                        continue
+                    if s_["kind"] == "BinaryOperator" and s_.get("opcode") == "=":
+                        l = strip(kids(s_)[0], casts=True)
+                        if l["kind"] == "DeclRefExpr" and l["ref"].get("id") == vid and not _refs_to(kids(s_)[1], vid):
+                            vd["inner"] = []
+                            vd.pop("init", None)
+                            changed = True
+                    break
     return changed
 
 
